@@ -316,3 +316,50 @@ func semEqualBits(got, want []Bit, maxBits int) (equal, decided bool, detail str
 	}
 	return true, true, ""
 }
+
+// walkTerms visits every term reachable from the given bits.
+func walkTerms(bits []Bit, visit func(t *Term)) {
+	seenT := map[*Term]bool{}
+	seenB := map[int32]bool{}
+	var walkT func(t *Term)
+	var walkB func(b Bit)
+	walkB = func(b Bit) {
+		if b.top || seenB[b.id] {
+			return
+		}
+		seenB[b.id] = true
+		for _, id := range b.atoms {
+			a := U.atoms[id]
+			if a.kind == aAnd {
+				for _, o := range a.ops {
+					walkB(o)
+				}
+				continue
+			}
+			if a.src.Def != nil {
+				walkB(a.src.Def)
+			}
+			if a.src.Term != nil {
+				walkT(a.src.Term)
+			}
+		}
+	}
+	walkT = func(t *Term) {
+		if seenT[t] {
+			return
+		}
+		seenT[t] = true
+		visit(t)
+		if t.bv != nil {
+			for _, b := range t.bv.Bits {
+				walkB(b)
+			}
+		}
+		for _, a := range t.Args {
+			walkT(a)
+		}
+	}
+	for _, b := range bits {
+		walkB(b)
+	}
+}
